@@ -48,12 +48,23 @@ func ZZLockFault() {
 	w := newWorld(true, nk, 1)
 	c := newCommand("", nk, 1, rt.Param("getkeys", 2))
 	// fault injection
-	tier := rt.Choice("faulttier", 2)
+	tier := rt.Choice("faulttier", 3) // L1 handler, L2 handler, the responder (writing to the client)
 	at := rt.Choice("failat", rt.Param("failpositions", 3)) - 1 // -1: no fault
 	kind := rt.Choice("faultkind", 3) // 0 I/O error, 1 application error (busy), 2 panic
 	h := w.h1
 	if tier == 1 {
 		h = w.h2
+	}
+	rec := &model.Rec{}
+	if tier == 2 {
+		// the responder fails: a write error towards the client, or a panic while replying
+		h = &model.Handler{FailAt: -1}
+		if at >= 0 && kind != 1 {
+			rec.HasFault, rec.PanicAt = true, at
+			if kind == 0 {
+				rec.FailErr = model.ErrIO
+			}
+		}
 	}
 	h.FailAt = at
 	switch kind {
@@ -66,7 +77,6 @@ func ZZLockFault() {
 	}
 
 	req, typ := c.request()
-	rec := &model.Rec{}
 	cl := []*closer{{}, {}, {}}
 	pp := &probeParser{req: req, typ: typ}
 	pp.probe = func() {
